@@ -17,7 +17,8 @@ RULE = ("cases = (data type, operation, value class); value classes: in-range bo
         "in-range random, out-of-range by 1 / by 2^k / far, byte patterns of right length, byte strings of every wrong "
         "length 0..9, REAL specials (subnormal, inf, -0.0, NaN patterns), strings per code point block. 8- and 16-bit "
         "integer types are enumerated exhaustively (values and byte patterns). A case is non-trivial when the value is "
-        "not 0/1/empty; distinct = distinct (type, op, class) triples.")
+        "not 0/1/empty; distinct = distinct (type, op, class) triples. One shard re-types a single ODVariable object between calls "
+        "(type assigned late, then changed 6 times: every ordered pair of numeric types in thorough).")
 ASSUMPTIONS = ["reference codec uses Python int.to_bytes/from_bytes and struct for IEEE 754",
                "BOOLEAN judged for 0/1/True/False only; strings ending in NUL are not judged on decode (library strips them by design)"]
 REQUIRED = {"codec.encode_int": 1000, "codec.decode_num": 1000, "codec.len": 19, "codec.encode_str": 100,
@@ -36,7 +37,7 @@ def plan(tier, seed):
         ["strings"],
     ]
     n_random = 2000 if tier == "quick" else 300000
-    return [{"types": g, "n_random": n_random} for g in groups] + [{"ambient": ["test/test_od.py", "test/test_sdo.py", "test/test_local.py", "test/test_eds.py"]}]
+    return [{"types": g, "n_random": n_random} for g in groups] + [{"retyped": 300 if tier == "quick" else 20000}] + [{"ambient": ["test/test_od.py", "test/test_sdo.py", "test/test_local.py", "test/test_eds.py"]}]
 
 
 def _var(dt):
@@ -62,6 +63,9 @@ def run(ctx, desc):
                     "contract_evaluations": {k: v for k, v in ctx.monitors.items()}})
         return
     rng = ctx.rng("c04")
+    if "retyped" in desc:
+        run_retyped(ctx, rng, desc["retyped"])
+        return
     for dt in desc["types"]:
         if dt == "strings":
             run_strings(ctx, rng, desc)
@@ -157,6 +161,45 @@ def run(ctx, desc):
                 ctx.case((name, "decode-wrong-length", "short" if n < right else "long"))
         ctx.sample({"type": name, "encode(hi)": (_try(var.encode_raw, R.int_range(dt)[1])[0] if dt in R.INTEGERS else None),
                     "len": len(var)})
+
+
+def run_retyped(ctx, rng, rounds):
+    """One ODVariable object whose data type is assigned late and changed between calls (tools that correct or reuse a variable)."""
+    from canopen.objectdictionary import ODVariable
+    types = sorted(R.NUMERIC) + [R.BOOLEAN]
+    for r in range(rounds):
+        var = ODVariable("scratch", 0x2000, 0)
+        if r % 3 == 0:
+            # used before the type is known: whatever that does, it must not stick
+            _try(var.encode_raw, 1)
+            _try(var.decode_raw, b"\x01")
+            _try(len, var)
+        prev = None
+        for _ in range(6):
+            dt = rng.choice(types)
+            var.data_type = dt
+            name = R.NAMES[dt]
+            ctx.case(("retyped", R.NAMES.get(prev, "untyped"), name), nontrivial=prev is not None)
+            n = R.width(dt) // 8
+            ops = ["len", "enc", "dec", "dec-wrong"]
+            rng.shuffle(ops)
+            for op in ops:
+                if op == "len":
+                    _try(len, var)
+                elif op == "enc" and dt in R.INTEGERS:
+                    lo, hi = R.int_range(dt)
+                    for v in (lo, hi, -1 if lo < 0 else hi // 2 + 1, hi + 1, lo - 1):
+                        _try(var.encode_raw, v)
+                elif op == "enc" and dt in R.REALS:
+                    _try(var.encode_raw, 1.5)
+                elif op == "dec":
+                    for p in (b"\xff" * n, bytes(rng.getrandbits(8) for _ in range(n))):
+                        _try(var.decode_raw, p)
+                elif op == "dec-wrong":
+                    for m in {max(0, n - 1), n + 1, 2, 4} - {n}:
+                        _try(var.decode_raw, b"\x12" * m)
+            prev = dt
+    ctx.sample({"workload": "retyped", "rounds": rounds})
 
 
 def run_strings(ctx, rng, desc):
